@@ -25,7 +25,7 @@ CHECK = dict(
                  'stall points widen windows only where hooks exist (workerpool.cpp hand-off, semaphore signal/wait, cross-vCPU resume)'],
     technique='runtime monitoring: per-task ledger (exec / finished / deleted counters, plain payload, by-value state in heap functors freed at the earliest '
               'legal moment), executing-vCPU monitor and stuck detector, under ASan+UBSan, TSan (fiber-annotated) and plain builds with OS-level stall '
-              'points and CPU shapes',
+              'points and CPU shapes; pools are also served by vCPUs that join from outside (join_current_vcpu_into_workpool), including pools without workers of their own',
     level_text='Held on the seeded executions actually run: every task accepted through call()/async_call() from photon threads and plain OS threads '
                'entered its body exactly once, on a vCPU that is not a submitter\'s, with at most vcpu_num distinct executing vCPUs per pool; every call() '
                'returned only after its task\'s last statement; every async task object was deleted exactly once and only after it ran; after ~WorkPool '
